@@ -533,8 +533,8 @@ def res_literal(r):
 # ----------------------------------------------------------------------------- entry points
 def run(ctx):
     import logging
-    logging.getLogger("deep").setLevel(logging.CRITICAL + 1)
-    logging.getLogger().setLevel(logging.CRITICAL + 1)
+    from ..lib.quiet import quiet_logging
+    quiet_logging()
     ctx.rule = ("store cases: random constructor (capacity in {None,0,1,2,3,5}, value limit, initial attributes, "
                 "frozen flag) and 1..25 set/del/merge_in operations over keys {valid, empty, non-str} and values "
                 "{bool,str,int,float,bytes ok/undecodable, homogeneous/mixed/None-holed sequences, invalid objects}; "
